@@ -426,6 +426,83 @@ func ruleSyncMapContents(c *Ctx, b *Body, pkg *ssa.Package, lab string, g *ssa.G
 			}
 			break
 		}
+		if mc, isMC := v.(*ssa.MakeClosure); isMC {
+			// a published closure shares the variables it captured: one that is written after
+			// the store needs a happens-before edge to the closure's reads — the closure waits
+			// on a captured sync.WaitGroup before it reads, and the writer signals Done after
+			// the write (the idiom of the inherited encoder cache)
+			cf, _ := mc.Fn.(*ssa.Function)
+			after := reachableAfter(b, s.call)
+			for bi, bnd := range mc.Bindings {
+				cell, ok := bnd.(*ssa.Alloc)
+				if !ok || cf == nil || bi >= len(cf.FreeVars) {
+					continue
+				}
+				var lateWrite *ssa.Store
+				for _, r := range *cell.Referrers() {
+					if st, ok := r.(*ssa.Store); ok && st.Addr == ssa.Value(cell) && after[st] {
+						lateWrite = st
+					}
+				}
+				if lateWrite == nil {
+					continue
+				}
+				nStore++
+				fv := cf.FreeVars[bi]
+				// reader side: a WaitGroup.Wait on a captured cell dominates every load of fv
+				var waits []*ssa.Call
+				allInstrs(cf, func(i ssa.Instruction) {
+					if c2, ok := i.(*ssa.Call); ok {
+						if g := c2.Call.StaticCallee(); g != nil && stdName(g) == "sync.(*WaitGroup).Wait" {
+							if _, isFV := c2.Call.Args[0].(*ssa.FreeVar); isFV {
+								waits = append(waits, c2)
+							}
+						}
+					}
+				})
+				readerOK := len(waits) > 0
+				for _, r := range *fv.Referrers() {
+					ld, ok := r.(*ssa.UnOp)
+					if !ok {
+						continue
+					}
+					dom := false
+					for _, w := range waits {
+						if b.instrDominates(w, ld) {
+							dom = true
+						}
+					}
+					if !dom {
+						readerOK = false
+					}
+				}
+				// writer side: Done on the captured WaitGroup after the write
+				writerOK := false
+				if len(waits) > 0 {
+					wgFV := waits[0].Call.Args[0].(*ssa.FreeVar)
+					wi := -1
+					for k, f2 := range cf.FreeVars {
+						if f2 == wgFV {
+							wi = k
+						}
+					}
+					if wi >= 0 && wi < len(mc.Bindings) {
+						wgCell := mc.Bindings[wi]
+						allInstrs(s.fn, func(i ssa.Instruction) {
+							if c2, ok := i.(*ssa.Call); ok {
+								if g := c2.Call.StaticCallee(); g != nil && stdName(g) == "sync.(*WaitGroup).Done" && c2.Call.Args[0] == wgCell && b.instrDominates(lateWrite, c2) {
+									writerOK = true
+								}
+							}
+						})
+					}
+				}
+				if !readerOK || !writerOK {
+					bad = append(bad, fmt.Sprintf("%s writes the variable %s captured by the closure published at %s (store at %s) without the wait/done hand-over: another goroutine that loads the closure can run it while the variable is still unset or being written", fname(s.fn), fv.Name(), b.posOf(s.call), b.posOf(lateWrite)))
+				}
+			}
+			continue
+		}
 		if !refLike(v.Type()) {
 			continue
 		}
